@@ -178,6 +178,11 @@ func (e *Engine) intrinsics() map[string]externalFn {
 		"(time.Time).Sub":    extZeroResult,
 		"(time.Duration).String": func(fr *frame, args []value) value { return "0s" },
 
+		// ---- sort.Slice family (the real ones go through reflectlite)
+		"sort.Slice":         extSortSlice,
+		"sort.SliceStable":   extSortSlice,
+		"sort.SliceIsSorted": extSliceIsSorted,
+
 		// ---- strconv fast paths on concrete data
 		"strconv.Itoa": func(fr *frame, args []value) value { return strconv.Itoa(int(fr.i.concInt(args[0]))) },
 		"strconv.Quote": func(fr *frame, args []value) value {
@@ -201,6 +206,47 @@ func (e *Engine) intrinsics() map[string]externalFn {
 }
 
 func extNop(fr *frame, args []value) value { return nil }
+
+// sliceOfAny extracts the []value behind an interface-typed slice argument.
+func sliceOfAny(v value) []value {
+	it, ok := v.(iface)
+	if !ok || it.t == nil {
+		panic(engineError{"sort.Slice: argument is not a slice in an interface"})
+	}
+	s, ok := it.v.([]value)
+	if !ok {
+		panic(engineError{fmt.Sprintf("sort.Slice: unsupported operand %T", it.v)})
+	}
+	return s
+}
+
+// extSortSlice implements sort.Slice and sort.SliceStable as a stable insertion sort that calls
+// the interpreted less function (a symbolic result forks the path).
+func extSortSlice(fr *frame, args []value) value {
+	i := fr.i
+	s := sliceOfAny(args[0])
+	less := args[1]
+	for a := 1; a < len(s); a++ {
+		for b := a; b > 0; b-- {
+			if !i.truth(call(i, fr, token.NoPos, less, []value{b, b - 1})) {
+				break
+			}
+			s[b], s[b-1] = s[b-1], s[b]
+		}
+	}
+	return nil
+}
+
+func extSliceIsSorted(fr *frame, args []value) value {
+	i := fr.i
+	s := sliceOfAny(args[0])
+	for a := len(s) - 1; a > 0; a-- {
+		if i.truth(call(i, fr, token.NoPos, args[1], []value{a, a - 1})) {
+			return false
+		}
+	}
+	return true
+}
 
 func extZeroResult(fr *frame, args []value) value {
 	res := fr.fn.Signature.Results()
